@@ -55,7 +55,8 @@ Definition F_f_compiles (prog : list feqn) : bool :=
              f_of_int (fun x => x) (fun x => x) (fun x _ => x) f_round4 (fun x => x) (fun x => x) (fun x _ => x) fzero 1%float prog.
 
 (* ---- the three entry points, both engines ---- *)
-Inductive entry : Type := EEvaluate (t : Z) | ESolveT (t : Z) | ESolve (ps : list nat).
+Inductive entry : Type := EEvaluate (t : Z) | ESolveT (t : Z) | ESolve (ps : list nat)
+                        | ESolveSE (start stop : option nat).     (* solve(start=, end=): None = default, Some = located position *)
 Inductive xout : Type :=
 | XU (r : outcome unit) | XB (r : outcome bool) | XL (r : outcome (list bool))
 | XNoCompile.                                  (* gfortran rejects the generated module *)
@@ -80,6 +81,12 @@ Definition P_solve (orc : oracles) (prog : list feqn) (d : mdesc) (o : fopts) (p
                            (F_py_hook orc prog n) (no_hook float) (no_hook float) d o ps s in
   (s', XL r).
 
+Definition P_solve_se (orc : oracles) (prog : list feqn) (d : mdesc) (o : fopts) (start stop : option nat) (s : fstate) : fstate * xout :=
+  let n := length (status s) in
+  let '(s', r) := py_solve_se float PrimFloat.sub PrimFloat.abs PrimFloat.ltb fisfin fzero
+                              (F_py_hook orc prog n) (no_hook float) (no_hook float) d o start stop s in
+  (s', XL r).
+
 Definition F_evaluate (orc : oracles) (prog : list feqn) (fm : fmod) (t : Z) (s : fstate) : fstate * xout :=
   let '(s', r) := w_evaluate float (F_f_pass orc prog) fm t s in (s', XU r).
 Definition F_solve_t (orc : oracles) (prog : list feqn) (fm : fmod) (d : mdesc) (o : fopts) (t : Z) (s : fstate) : fstate * xout :=
@@ -87,6 +94,10 @@ Definition F_solve_t (orc : oracles) (prog : list feqn) (fm : fmod) (d : mdesc) 
 Definition F_solve (orc : oracles) (prog : list feqn) (fm : fmod) (d : mdesc) (o : fopts) (fl : failmode) (ps : list nat)
            (s : fstate) : fstate * xout :=
   let '(s', r) := w_solve float PrimFloat.sub PrimFloat.abs PrimFloat.ltb fisfin fzero (F_f_pass orc prog) fm d o fl ps s in (s', XL r).
+
+Definition F_solve_se (orc : oracles) (prog : list feqn) (fm : fmod) (d : mdesc) (o : fopts) (fl : failmode) (start stop : option nat)
+           (s : fstate) : fstate * xout :=
+  let '(s', r) := w_solve_se float PrimFloat.sub PrimFloat.abs PrimFloat.ltb fisfin fzero (F_f_pass orc prog) fm d o fl start stop s in (s', XL r).
 
 (* ---- comparison with the observations ---- *)
 Definition state_eqb_nolog (a b : fstate) : bool :=
@@ -116,6 +127,7 @@ Definition run_py (c : ccase) : fstate * xout :=
   | EEvaluate t => P_evaluate (cc_por c) (cc_prog c) t (cc_state c)
   | ESolveT t => P_solve_t (cc_por c) (cc_prog c) (cc_desc c) (cc_opts c) t (cc_state c)
   | ESolve ps => P_solve (cc_por c) (cc_prog c) (cc_desc c) (cc_opts c) ps (cc_state c)
+  | ESolveSE a b => P_solve_se (cc_por c) (cc_prog c) (cc_desc c) (cc_opts c) a b (cc_state c)
   end.
 Definition run_f (c : ccase) : fstate * xout :=
   if negb (F_f_compiles (cc_prog c)) then (cc_state c, XNoCompile) else
@@ -123,6 +135,7 @@ Definition run_f (c : ccase) : fstate * xout :=
   | EEvaluate t => F_evaluate (cc_for c) (cc_prog c) (cc_fmod c) t (cc_state c)
   | ESolveT t => F_solve_t (cc_for c) (cc_prog c) (cc_fmod c) (cc_desc c) (cc_opts c) t (cc_state c)
   | ESolve ps => F_solve (cc_for c) (cc_prog c) (cc_fmod c) (cc_desc c) (cc_opts c) (cc_fail c) ps (cc_state c)
+  | ESolveSE a b => F_solve_se (cc_for c) (cc_prog c) (cc_fmod c) (cc_desc c) (cc_opts c) (cc_fail c) a b (cc_state c)
   end.
 Definition obs_eqb (m x : fstate * xout) : bool := state_eqb_nolog (fst m) (fst x) && xout_eqb (snd m) (snd x).
 Definition check_cc (c : ccase) : bool :=
